@@ -195,7 +195,9 @@ class Report(object):
         paths = int(agg.get('paths', 0))
         distinct = sum(r.get('extra', {}).get('distinct_obligations', 0) for r in self.results)
         cov = dict(
-            states=max(paths, 0), transitions=int(agg.get('branches', 0)),
+            # transitions: solver-decided branch decisions plus, where a harness counts them, the operations
+            # (state transitions of the object under test) executed on the explored paths
+            states=max(paths, 0), transitions=int(agg.get('branches', 0)) + int(self.extra.get('operations_executed', 0)),
             traces_validated_against_impl=int(self.validation_runs + self.replays_done),
             samples=self.samples or ['(none)'],
             evaluations=int(agg.get('obligations', 0)),
